@@ -116,10 +116,27 @@ func (e *Encoder) Write(_ context.Context, f frame.Frame) error {
 type decodingReader struct {
 	dec     *gobDecoder
 	crc     hash.Hash32
+	count   *countingReader
 	scratch frame.Frame
 	buf     frame.Frame
 	err     error
 }
+
+// countingReader counts the bytes read through it.
+type countingReader struct {
+	io.Reader
+	n int64
+}
+
+func (c *countingReader) Read(p []byte) (int, error) {
+	n, err := c.Reader.Read(p)
+	c.n += int64(n)
+	return n, err
+}
+
+// maxChecksumLen is the largest encoding of a batch's checksum message: a
+// length byte, the type id, a zero byte and at most 5 bytes of value.
+const maxChecksumLen = 8
 
 // NewDecodingReader returns a new Reader that decodes values from
 // the provided stream. Since values are streamed in vectors, decoding
@@ -137,8 +154,8 @@ func NewDecodingReader(r io.Reader) Reader {
 	if _, ok := r.(io.ByteReader); !ok {
 		r = bufio.NewReader(r)
 	}
-	r = io.TeeReader(r, crc)
-	return &decodingReader{dec: newGobDecoder(readerByteReader{Reader: r}), crc: crc}
+	count := &countingReader{Reader: io.TeeReader(r, crc)}
+	return &decodingReader{dec: newGobDecoder(readerByteReader{Reader: count}), crc: crc, count: count}
 }
 
 func (d *decodingReader) Read(ctx context.Context, f frame.Frame) (n int, err error) {
@@ -147,10 +164,21 @@ func (d *decodingReader) Read(ctx context.Context, f frame.Frame) (n int, err er
 	}
 	for d.buf.Len() == 0 {
 		d.crc.Reset()
+		start := d.count.n
 		if d.err = d.dec.Decode(&n); d.err != nil {
 			if d.err == io.EOF {
-				d.err = EOF
+				if d.count.n == start {
+					d.err = EOF
+				} else {
+					// The stream ended (or a damaged message underran)
+					// inside a batch: this is not a clean end.
+					d.err = errors.E(errors.Integrity, io.ErrUnexpectedEOF)
+				}
 			}
+			return 0, d.err
+		}
+		if n < 0 {
+			d.err = errors.E(errors.Integrity, fmt.Errorf("invalid batch length %d", n))
 			return 0, d.err
 		}
 		// In most cases, we should be able to decode directly into the
@@ -213,20 +241,32 @@ func (d *decodingReader) decode(f frame.Frame) error {
 		err := d.dec.DecodeValue(v)
 		if err != nil {
 			if err == io.EOF {
-				return EOF
+				// A stream that ends inside a batch is truncated.
+				return errors.E(errors.Integrity, io.ErrUnexpectedEOF)
 			}
 			return err
 		}
 		// This is guaranteed by gob, but it seems worthy of some defensive programming here.
 		// It's also an extra check against the correctness of the codec.
 		if pHdr.Data != sh.Data {
-			panic("gob reallocated a slice")
+			// Gob decodes in place when the encoded column has exactly the
+			// batch's length; if it does not, the stream is damaged.
+			return errors.E(errors.Integrity, "column length does not match batch length")
 		}
 	}
 	sum := d.crc.Sum32()
 	var decoded uint32
+	start := d.count.n
 	if err := d.dec.Decode(&decoded); err != nil {
+		if err == io.EOF {
+			err = errors.E(errors.Integrity, io.ErrUnexpectedEOF)
+		}
 		return err
+	}
+	if d.count.n-start > maxChecksumLen {
+		// The checksum is not covered by itself: a damaged length prefix
+		// would make its message swallow (and so silently drop) what follows.
+		return errors.E(errors.Integrity, fmt.Errorf("checksum message of %d bytes", d.count.n-start))
 	}
 	if sum != decoded {
 		return errors.E(errors.Integrity, fmt.Errorf("computed checksum %x but expected checksum %x", sum, decoded))
